@@ -36,7 +36,6 @@ def _lift_coef(x):
 
 class Jet:
     __slots__ = ("v", "c", "prec")
-    __array_priority__ = 1002
 
     def __init__(self, v, cs, prec=INF):
         cs = list(cs)
